@@ -30,6 +30,12 @@ REQ = {
     "convex position 2-D (_is_convex)": lambda s: ("ret", "scipy.spatial.ConvexHull") in s[1],
     "convex position 3-D (ConvexHull vertex count)": lambda s: ("ret", "scipy.spatial.ConvexHull") in s[1],
 }
+# validation tests of the confirmed tree that belong to no requirement of the table (confirmed by reading)
+BASELINE_EXTRA = [
+    lambda s: "normal" in s[2],                                               # the given normal is orthogonal to the polygon
+    lambda s: not s[1] and set(s[2]) == {"vertices"} and not s[3],            # shape tests on the raw argument (.shape[1] in (2, 3))
+    lambda s: ("ret", "_calculate_signed_volume") in s[1],                    # positive volume of the core
+]
 POLY = ["len(vertices) tests (shape, >= 3)", "duplicate vertices (np.unique)", "coplanarity (isclose under planar_tolerance)"]
 REQUIRED = {
     "Polygon": POLY + ["simple polygon (_is_simple)"],
@@ -133,6 +139,19 @@ def run(index, tier="quick", seed=0) -> Result:
             controls = [(exc, ev) for (exc, sigs, ev) in tp.raises if any(pred(s) for s in sigs)]
             k = f"{label}:{req}"
             if not ok_all:
+                # recognise-then-judge: is there a validation test the table does not know (it may be an equivalent formulation)?
+                known_preds = [REQ[q_] for q_ in REQUIRED.get(cls.name, [])]
+                unknown_tests = set()
+                for (exc_, sigs_, ev_) in tp.raises:
+                    if exc_ != "ValueError":
+                        continue
+                    for s_ in sigs_:
+                        if not any(p_(s_) for p_ in known_preds) and ("vertices" in s_[2] or "_vertices" in s_[3]) \
+                                and not any(b_(s_) for b_ in BASELINE_EXTRA):
+                            unknown_tests.add(s_[0])
+                if unknown_tests:
+                    raise AnalysisError(f"CT-2: {label} does not contain the recognised form of the test `{req}` but validates its vertices with "
+                                        f"{len(unknown_tests)} test(s) the analysis does not know")
                 res.bad("CT-2", k, f"{init.file}:{init.lineno}", f"{label} can return normally without passing the test: {req}")
             elif not any(exc == "ValueError" for exc, _ in controls):
                 res.bad("CT-2", k + ":noraise", f"{init.file}:{init.lineno}", f"{label}: the test `{req}` does not control any raise ValueError")
